@@ -14,7 +14,8 @@ def run(ctx):
     t0 = time.time()
     V = vlib.Verdict(PID)
     wd = vlib.scratch("c10-%s" % ctx.tier)
-    stats, bad = ac.run_asm(ctx, ["tcpasm"], wd, 300 if ctx.tier == "quick" else 5000)
+    stats, bad = ac.run_asm(ctx, ["tcpasm"], wd, 300 if ctx.tier == "quick" else 5000,
+                            variants={"tcpasm": 1} if ctx.tier == "quick" else None)
     ac.judge(V, bad, ac.DELIVERY, ["tcpasm"])
     rc = V.finish()
     ac.evidence(PID, ctx, V, stats, t0, ["tcpassembly"])
